@@ -760,6 +760,10 @@ fn check_cut(prefix: &Expect, variant: Variant, obs: &Observed) -> Option<Viol> 
                 let Some(want) = prefix.tells.iter().find(|t| t.0 == k).map(|t| t.1) else {
                     continue;
                 };
+                if seen.contains(&k) {
+                    // (the cut can turn `tell 12` of the partial line into `tell 1`)
+                    continue;
+                }
                 seen.push(k);
                 let got = if variant == Variant::FileStdin { e.a as u64 } else { consumed };
                 if got != want {
